@@ -273,13 +273,43 @@ func After(d time.Duration) *Chan[time.Time] {
 	return c
 }
 
-// Timer replaces *time.Timer (AfterFunc / NewTimer).
+// Timer replaces *time.Timer (AfterFunc / NewTimer). Every (re)arming has a generation number; the sleeper of an
+// older generation, or of a stopped timer, does nothing when it wakes up.
 type Timer struct {
-	C       *Chan[time.Time]
-	mu      Mutex
-	stopped bool
-	fired   bool
-	real    *time.Timer
+	C      *Chan[time.Time]
+	mu     Mutex
+	gen    int
+	active bool
+	f      func()
+	real   *time.Timer
+}
+
+func (t *Timer) arm(d time.Duration) {
+	t.mu.Lock()
+	t.gen++
+	gen := t.gen
+	t.active = true
+	t.mu.Unlock()
+	Go(func() {
+		Sleep(d)
+		t.mu.Lock()
+		fire := t.active && t.gen == gen
+		if fire {
+			t.active = false
+		}
+		t.mu.Unlock()
+		if !fire {
+			return
+		}
+		if t.f != nil {
+			t.f()
+			return
+		}
+		// like the runtime: the send never blocks (the channel has room for one tick)
+		if i, _ := Select(true, SendCase(t.C)); i == 0 {
+			t.C.PutSelected(Now())
+		}
+	})
 }
 
 func (t *Timer) Stop() bool {
@@ -288,8 +318,19 @@ func (t *Timer) Stop() bool {
 	}
 	t.mu.Lock()
 	defer t.mu.Unlock()
-	was := !t.stopped && !t.fired
-	t.stopped = true
+	was := t.active
+	t.active = false
+	return was
+}
+
+func (t *Timer) Reset(d time.Duration) bool {
+	if t.real != nil {
+		return t.real.Reset(d)
+	}
+	t.mu.Lock()
+	was := t.active
+	t.mu.Unlock()
+	t.arm(d)
 	return was
 }
 
@@ -298,17 +339,8 @@ func AfterFunc(d time.Duration, f func()) *Timer {
 	if cur.Load() == nil {
 		return &Timer{real: time.AfterFunc(d, f)}
 	}
-	t := &Timer{}
-	Go(func() {
-		Sleep(d)
-		t.mu.Lock()
-		run := !t.stopped
-		t.fired = true
-		t.mu.Unlock()
-		if run {
-			f()
-		}
-	})
+	t := &Timer{f: f}
+	t.arm(d)
 	return t
 }
 
@@ -316,19 +348,15 @@ func AfterFunc(d time.Duration, f func()) *Timer {
 func NewTimer(d time.Duration) *Timer {
 	t := &Timer{C: MakeChan[time.Time](1)}
 	if cur.Load() == nil {
-		t.real = time.AfterFunc(d, func() { t.C.real <- time.Now() })
+		t.real = time.AfterFunc(d, func() {
+			select {
+			case t.C.real <- time.Now():
+			default:
+			}
+		})
 		return t
 	}
-	Go(func() {
-		Sleep(d)
-		t.mu.Lock()
-		run := !t.stopped
-		t.fired = true
-		t.mu.Unlock()
-		if run {
-			t.C.Send(Now())
-		}
-	})
+	t.arm(d)
 	return t
 }
 
